@@ -594,6 +594,7 @@ func (c *client) Receive(reader io.Reader) error {
 				errMsg := fmt.Sprintf("Unsupported compression type: %s (supported compression types: %s)",
 					compression, strings.Join(codecs.CompressionNames, ", "))
 				c.send(raw.Header, &message.ProtocolError{ErrorMessage: errMsg})
+				return nil // Only send the error (not followed by a READY response)
 			}
 		}
 		c.send(raw.Header, &message.Ready{})
